@@ -340,6 +340,12 @@ class Program(object):
     # ------------------------------------------------------------------ helpers
     def fn(self, qualname):
         f = self.functions.get(qualname)
+        if f is None and "." in qualname:
+            # a method the class now inherits (moved to a base class or a mixin): what attribute lookup on the class finds
+            cq, m = qualname.rsplit(".", 1)
+            ci = self.classes.get(cq)
+            if ci is not None:
+                f = ci.find_method(m)
         if f is None:
             raise AnalysisError("anchor function %s not found in the tree" % qualname)
         return f
